@@ -165,6 +165,12 @@ def _child(mod, spec, out_path, timeout, idx=0):
         faulthandler.enable()
         faulthandler.dump_traceback_later(max(5, timeout - 2), exit=False)
         acc = Acc(mod.ID)
+        if idx % 2 == 1 and "VERIF_TZ" not in os.environ:
+            os.environ["TZ"] = "NZST-13"          # UTC+13: the other side of the date line
+            time.tzset()
+            acc.count("shards_run_east_of_greenwich")
+        else:
+            acc.count("shards_run_west_of_greenwich")
         if idx % 3 == 1 and os.environ.get("VERIF_NO_DEBUG_LOGGING") != "1":
             _silent_debug_logging()
             acc.count("shards_run_with_library_debug_logging_on")
